@@ -20,7 +20,7 @@ CATS = [("fn-removed", "fn-added", "function"), ("var-removed", "var-added", "va
 
 
 def plan(tier):
-    return {"n": 250 if tier == "quick" else 4000, "floor": 60 if tier == "quick" else 1000}
+    return {"n": 250 if tier == "quick" else 1000, "floor": 60 if tier == "quick" else 250}
 
 
 def rule(tier):
